@@ -33,7 +33,8 @@ CheckWord(r) ==
       p2 == IF r.kind = "name" /\ ~(r.ok /\ DOMAIN m = {r.u} /\ m[r.u].pw = 1
                                     /\ m[r.u].px = (CHOOSE nm \in UNames : nm.w = r.w /\ nm.u = r.u).bias)
             THEN <<"name-rejected">> ELSE <<>>
-      p3 == IF r.ok # p.ok THEN <<"acceptance">> ELSE <<>> IN
+      \* (a reading that names one unit under two prefixes is refused later, by the unit map)
+      p3 == IF r.ok # (p.ok /\ Representable(p.r)) THEN <<"acceptance">> ELSE <<>> IN
   [problems |-> p1 \o p2 \o p3, bt |-> p.bt, nread |-> Cardinality(rs)]
 
 CheckDef(r) ==
